@@ -18,14 +18,19 @@ pub fn def() -> PropertyDef {
     }
 }
 
-fn gen_weights(g: &mut Gen) -> Vec<f64> {
+fn gen_weights(g: &mut Gen, tiny_lo: f64, tiny_hi: f64) -> Vec<f64> {
     let len = match g.range(0, 9) {
         0 => 1,
         1..=5 => g.usize(2, 8),
         _ => g.usize(9, 64),
     };
     let style = g.range(0, 5);
-    let scale = g.log_uniform(1e-6, 1e6);
+    // unnormalised: ordinary scales, very large ones, and sums in the subnormal range of the float type
+    let scale = match g.range(0, 9) {
+        0 => g.log_uniform(tiny_lo, tiny_hi),
+        1 => g.log_uniform(1e20, 1e30),
+        _ => g.log_uniform(1e-6, 1e6),
+    };
     let mut w: Vec<f64> = (0..len)
         .map(|_| match style {
             0 => 1.0,
@@ -124,9 +129,16 @@ where
 {
     let mut o = Outcome::default();
     let mut g = Gen::new(pu(params, "gseed"));
-    let w64 = gen_weights(&mut g);
-    let w: Vec<F> = w64.iter().map(|x| F::of_f64(*x)).collect();
+    let (tl, th) = if F::NAME == "f32" { (1e-43, 1e-39) } else { (1e-320, 1e-309) };
+    let mut w64 = gen_weights(&mut g, tl, th);
+    let mut w: Vec<F> = w64.iter().map(|x| F::of_f64(*x)).collect();
+    if w.iter().all(|x| *x == F::zero()) {
+        // everything underflowed to zero in this float type: keep one representable positive weight
+        w[0] = F::min_positive_value();
+        w64[0] = F::min_positive_value().as_f64();
+    }
     let len = w.len();
+    o.count("probe_subnormal_weight_sum", (w.iter().fold(F::zero(), |a, b| a + *b) < F::min_positive_value()) as u64);
     let cat = Categorical::new(w.clone());
     let p: Vec<F> = cat.probs.clone();
     // normalisation
@@ -238,7 +250,7 @@ impl Scenario for ExhaustiveF32 {
     fn execute(&self, params: &Value, ws: bool) -> Outcome {
         let mut o = Outcome::default();
         let mut g = Gen::new(pu(params, "gseed"));
-        let mut w64 = gen_weights(&mut g);
+        let mut w64 = gen_weights(&mut g, 1e-43, 1e-39);
         w64.truncate(12.max(1)); // keep the per-sample cost low; zeros are re-checked below
         if w64.iter().all(|x| *x == 0.0) {
             w64[0] = 1.0;
